@@ -74,6 +74,9 @@ type World struct {
 	flowsJudged, flowsDenied, flowsAllowed int
 	followUpDone                           bool
 	c16Skipped                             bool
+	convK0                                 *Observed // C15: state a full synchronisation of the history started from
+	convPending                            bool
+	convWhat                               string
 	typeConflict                           bool     // an ipset create was refused because the name is taken by a set of another type
 	changed2                               []string // commands of the second synchronisation that changed kernel state
 
@@ -312,7 +315,11 @@ func (w *World) setupPriorKernel() {
 		}
 		for _, p := range ghost.polList() {
 			if c.Prob(1, 3) {
-				w.G.policySpec(ghost, p)
+				if f := w.G.flipRoles(p); f != nil && c.Prob(1, 2) {
+					ghost.Pols[p.key()] = f // the earlier galaxy saw the same CIDRs in other roles
+				} else {
+					w.G.policySpec(ghost, p)
+				}
 			}
 		}
 		if w.F.Junk {
@@ -432,6 +439,12 @@ func (w *World) Actions() []core.Action {
 	if !w.ready || w.busy() || w.stage != 0 {
 		return nil
 	}
+	if w.convPending {
+		w.checkSyncConverged()
+		if w.S.Viol != nil || w.S.Infra != "" {
+			return nil
+		}
+	}
 	if w.armed("C16") && len(w.sinceJudge) > 0 && !w.firstSync && len(w.initialAdds) == 0 && w.cniPending == nil && len(w.K.PendingKinds()) == 0 {
 		// event quiescence: everything delivered has been handled, nothing is running
 		w.judgeEventQuiescence()
@@ -507,6 +520,7 @@ func (w *World) initialAdd() {
 		w.rebuildShadow()
 		w.sinceJudge = append(w.sinceJudge, "net:ADDED:initial")
 	}
+	w.fullSyncStarts("the handler of an initial net:ADDED")
 	t := w.S.Spawn(fmt.Sprintf("net:ADDED:initial-%d", w.handlers), w.proc, func() { eventTask(inst, "networkpolicies", "ADDED", nil, js, false) })
 	t.Tag = "net"
 	w.S.Sig("E:net:ADDED")
@@ -520,6 +534,7 @@ func (w *World) spawnSync(name string) {
 		w.rebuildShadow()
 		w.sinceJudge = append(w.sinceJudge, name)
 	}
+	w.fullSyncStarts(name)
 	t := w.S.Spawn(name, w.proc, func() { syncTask(inst, name) })
 	t.Tag = "sync"
 	w.syncTask = t
